@@ -27,6 +27,7 @@ if os.path.isdir(_deps) and _deps not in sys.path:
 from vf import core  # noqa: E402
 
 core.install_repo_path()
+os.environ.setdefault("HYPOTHESIS_STORAGE_DIRECTORY", os.path.join(VERIF, "out", "hypothesis"))
 
 ALL_IDS = [f"C{i:02d}" for i in range(1, 21)]
 SOFT_WALL = {"quick": 240.0, "thorough": 3000.0}
@@ -112,6 +113,19 @@ def checked(tgt, case):
         raise
 
 
+def _pin_hypothesis():
+    """Hypothesis harvests literals from local modules (vf.*, bits.*) into a constants pool whose iteration order depends
+    on an on-disk cache; a run must be a pure function of the code and VERIF_SEED, so the pool is emptied (boundary
+    values are supplied explicitly by the strategies instead)."""
+    try:
+        import hypothesis.internal.conjecture.providers as hp
+        from hypothesis.internal.constants_ast import Constants
+
+        hp._get_local_constants = lambda: Constants()
+    except Exception:  # noqa: BLE001 - different Hypothesis version: fall back to a private storage directory
+        pass
+
+
 def run_shard(job):
     pid, tname, tier, seed, shard, nshards, deadline, mode, want_sig = job
     out = {"target": tname, "shard": shard, "error": None}
@@ -136,6 +150,8 @@ def run_shard(job):
         else:
             import hypothesis
             from hypothesis import HealthCheck, Phase, given, settings
+
+            _pin_hypothesis()
 
             n = max(1, int(tgt.budget[tier] * float(os.environ.get("VERIF_SCALE", "1"))) // nshards)
             dseed = derive_seed(seed, pid, tname, shard)
